@@ -5,6 +5,6 @@ CONSTANTS
   Kinds = {"euler", "rk", "adams3", "adams5", "bdf2", "bdf6"}
   Thorough = FALSE
 CONSTRAINT TicksFineEnough
-INVARIANTS ContractRefined PathOrdered PathInside PathGaps EndReached EulerOnGrid HistAligned StepWithinMax NothingPending AtMostOneErr FailOnlyBelowMin
+INVARIANTS ContractRefined PathOrdered PathInside PathGaps EndReached EulerOnGrid HistAligned EvalsInsideInterval StepWithinMax NothingPending AtMostOneErr FailOnlyBelowMin
 PROPERTY Terminates
 CHECK_DEADLOCK FALSE
